@@ -145,6 +145,11 @@ Mods1(args2, lvl) ==     \* items built from a pair of definitions a, b ; at lev
       b == args2[2] IN
   { [t |-> "sum", args |-> <<a, b>>], [t |-> "product", args |-> <<a, b>>], [t |-> "sum", args |-> <<a>>] }
   \cup (IF lvl = 0 THEN { [t |-> "sum", args |-> <<a, b, a>>], [t |-> "product", args |-> <<b, a, b>>] } ELSE {})
+  \* an argument that is itself a multi-range definition: b up to r = 2, nothing from there on
+  \cup (IF lvl = 0 /\ Len(b.rs) = 1
+        THEN LET cut == Def(<<Rng(">", 0, b.rs[1].it), Rng(">=", 2, Leaf("zero", <<0, 0, 0>>, 0))>>) IN
+             { [t |-> "product", args |-> <<a, cut, b>>], [t |-> "sum", args |-> <<cut, a>>], [t |-> "product", args |-> <<cut, a>>] }
+        ELSE {})
   \cup {[t |-> "pow", args |-> <<a>>, k |-> k] : k \in IF lvl = 0 THEN Exps ELSE {2}}
   \cup {[t |-> "trans", args |-> <<a>>, x |-> s] : s \in Shifts \cup {-1}}
 
@@ -198,8 +203,26 @@ CaseOf(tr) == [tree |-> tr, offers |-> DefOffers(tr),
                rows |-> [i \in 1..Cardinality(Lattice) |->
                   LET x == SetToSeq(Lattice)[i] IN
                   [x |-> x, jet |-> DefJet(tr, R(x)), boundary |-> DefBoundary(tr, R(x)), dom |-> DefDomain(tr, R(x)), defined |-> DefDefined(tr, R(x)), analytic |-> DefAnalytic(tr, R(x))]]]
+\* pow(a, b) with an exponent that itself varies with r: a(r) ** b(r).  In general value and derivatives involve ln a(r)
+\* (the replay then evaluates  v = a^b,  v' = v (b' ln a + b a'/a),  v'' = v [(b' ln a + b a'/a)^2 + b'' ln a + 2 a'b'/a + b a''/a - b a'^2/a^2]
+\* in floating point from the exact jets of a and b given here); where a(r) = 1 everything is rational:
+PowVarJet(a, b) == Jet(ROne, RMul(b.v, a.d1),
+                       RAdd(RAdd(RAdd(RMul(RMul(b.v, a.d1), RMul(b.v, a.d1)), RMul(R(2), RMul(a.d1, b.d1))), RMul(b.v, a.d2)), RNeg(RMul(b.v, RMul(a.d1, a.d1)))))
+PowVarBases == {l \in Leaves : l.kind \in {"poly", "formula"} /\ \A x \in Lattice : RLt(RZero, LeafJet(l, R(x)).v)}
+                 \cup {Leaf("poly", <<-1, 1, 0>>, 0)}          \* r - 1: equals 1 at r = 2 with slope 1 (asserted where positive)
+PowVarExps == {l \in Leaves : l.kind \in {"poly", "formula", "const"}}
+PowVarCases ==
+  {[base |-> la, exp |-> lb,
+    rows |-> [i \in 1..Cardinality(Lattice) |->
+                LET x == SetToSeq(Lattice)[i]
+                    a == LeafJet(la, R(x))
+                    b == LeafJet(lb, R(x)) IN
+                [x |-> x, a |-> a, b |-> b, positive |-> RLt(RZero, a.v), one |-> a.v = ROne,
+                 e |-> IF a.v = ROne THEN PowVarJet(a, b) ELSE ZeroJet]]] : la \in PowVarBases, lb \in PowVarExps}
+
 EmitAll == IF "EMIT" \in DOMAIN IOEnv /\ IOEnv.EMIT = "1"
-           THEN ndJsonSerialize(IOEnv.VERIF_OUT \o "/cases.ndjson", SetToSeq({CaseOf(tr) : tr \in T0 \cup T1(0)}))
+           THEN /\ ndJsonSerialize(IOEnv.VERIF_OUT \o "/cases.ndjson", SetToSeq({CaseOf(tr) : tr \in T0 \cup T1(0)}))
+                /\ ndJsonSerialize(IOEnv.VERIF_OUT \o "/powvar.ndjson", SetToSeq(PowVarCases))
            ELSE TRUE
 ASSUME EmitAll
 EmitCase == (done /\ level = 2) => PrintT(<<"CASE", ToJson([tree |-> tree, offers |-> DefOffers(tree), rows |-> [i \in 1..Cardinality(Lattice) |-> Row(SetToSeq(Lattice)[i])]])>>)
